@@ -231,7 +231,7 @@ async fn scenario(rng: &mut Rng, out: &mut Out, sidx: usize) {
         let defs = defs_coq(&scn.defs);
         let before = dump(&a).await;
         let before_rooms = dump_rooms(&a).await;
-        let kind = rng.below(12);
+        let kind = rng.below(13);
         let (coq, refused, opname): (String, bool, &str);
         match kind {
             0 | 1 => { // create (plain or nested)
@@ -339,6 +339,25 @@ async fn scenario(rng: &mut Rng, out: &mut Out, sidx: usize) {
                     all_dates.push(now);
                 }
                 opname = "room-mutation";
+            }
+            12 => { // authorisation rows touched outside a room mutation: always refused
+                let rid = 1 + rng.below(2);
+                let g = *rng.pick(&scn.auth_ids[&rid].keys().cloned().collect::<Vec<_>>());
+                let mut p = Parameters::default();
+                p.add("g", scn.auth_ids[&rid][&g].clone()).unwrap();
+                p.add("k", key_b64(A, &a, &b)).unwrap();
+                let which = rng.below(4);
+                let res_err = match which {
+                    0 => a.db.mutate_raw(r#"mutate { sys.Authorisation{ id:$g name:"renamed" } }"#, Some(p)).await.is_err(),
+                    1 => a.db.mutate_raw(r#"mutate { sys.UserAuth{ verif_key:$k enabled:true } }"#, Some(p)).await.is_err(),
+                    2 => a.db.mutate_raw(r#"mutate { sys.EntityRight{ entity:"*" mutate_self:true mutate_all:true } }"#, Some(p)).await.is_err(),
+                    _ => a.db.delete("delete { sys.Authorisation { $g } }", Some(p)).await.is_err(),
+                };
+                let auth_head = format!("{{| h_kind := KAuthLike; h_ent := 1%N; h_room := None; h_date := {}; h_has_node := true; h_too_big := false; h_old := None; h_edge_dels := 0%N |}}", gz(now));
+                coq = if which < 3 { format!("CMut {} {} [{}]", defs, gn(A), ment(auth_head, vec![])) }
+                      else { format!("CDel {} {} {} [{{| dn_kind := KAuthLike; dn_ent := 1%N; dn_room := None; dn_author := {}; dn_date := {} |}}] [] []", defs, gn(A), gz(now), gn(B), gz(now)) };
+                refused = res_err;
+                opname = "authorisation-row-outside-room-mutation";
             }
             _ => { // reference deletion (existing reference, or a reference that does not exist)
                 let parents: Vec<usize> = alive.iter().cloned().filter(|i| scn.rows[*i].ent == 1).collect();
